@@ -13,6 +13,9 @@ FUNCTIONS = ["btc_hd_wallet.bip32.PubKeyNode.ckd", "btc_hd_wallet.bip32.PubKeyNo
 BOUNDS = {"quick": {"values": "no bound on parent key, chain code, depth, fingerprint, PRF output; index: all of [0, 2^32) "
                               "(refusal for every index >= 2^31)", "path length": "1..3 non-hardened symbolic indexes"},
           "thorough": {"values": "as quick", "path length": "1..5"}}
+BOUNDS_ADDED = 'leaf kept alone, L = 1..2; the same index list object passed twice; invalid public children raise, also when asked twice'
+for _t in ("quick", "thorough"):
+    BOUNDS[_t]["histories, lifetimes, injected faults, boundary vectors"] = BOUNDS_ADDED
 STUBS = ["HMAC-SHA512, SHA-256, RIPEMD-160 -> uninterpreted functions", "secp256k1 (ecdsa) -> group model (Z_n,+): "
          "(IL + k)*G = IL*G + k*G is an arithmetic fact the solver checks, so what is decided is whether the code composes "
          "the group operations correctly", "Base58Check -> recording summary"]
